@@ -229,6 +229,8 @@ def composed(chk, fs):
                 try:
                     if a == "write":
                         facade.write10(s_["lba"], 1, bytearray([s_["val"]]))
+                    elif a == "zero":
+                        facade.writesame16(s_["lba"], 1, None, ndob=1)
                     elif a == "read":
                         data = facade.read10(s_["lba"], 1).datain[0]
                     elif a == "reread":
